@@ -358,6 +358,8 @@ func (b *GRPCBroker) Accept(id uint32) (net.Listener, error) {
 	if b.addrTranslator != nil {
 		advertiseNet, advertiseAddr, err = b.addrTranslator.HostToPlugin(advertiseNet, advertiseAddr)
 		if err != nil {
+			// Nobody will ever get this listener: release it (and its socket file).
+			listener.Close()
 			return nil, err
 		}
 	}
@@ -367,6 +369,7 @@ func (b *GRPCBroker) Accept(id uint32) (net.Listener, error) {
 		Address:   advertiseAddr,
 	})
 	if err != nil {
+		listener.Close()
 		return nil, err
 	}
 
